@@ -1,1 +1,2 @@
 import TsProofs.Properties.C20
+import TsProofs.Properties.C17
